@@ -1067,8 +1067,11 @@ def solve(objfun, x0, h=None, lh=None, prox_uh=None, argsf=(), argsh=(), argspro
         exit_info = ExitInformation(EXIT_INPUT_ERROR, "Bad parameters: %s" % str(bad_keys))
 
     # Values at the end of the allowed interval that would make the algorithm degenerate
-    if exit_info is None and params("tr_radius.alpha1") >= 1.0:
-        exit_info = ExitInformation(EXIT_INPUT_ERROR, "tr_radius.alpha1 must be strictly less than 1 (rho must decrease)")
+    if exit_info is None and (params("tr_radius.alpha1") >= 1.0 or params("tr_radius.alpha1") <= 0.0):
+        exit_info = ExitInformation(EXIT_INPUT_ERROR, "tr_radius.alpha1 must be strictly between 0 and 1 (rho must decrease but stay positive)")
+
+    if exit_info is None and params("restarts.rhoend_scale") <= 0.0:
+        exit_info = ExitInformation(EXIT_INPUT_ERROR, "restarts.rhoend_scale must be strictly positive (rhoend must stay positive)")
 
     if exit_info is None and params("general.safety_step_thresh") <= 0.0:
         exit_info = ExitInformation(EXIT_INPUT_ERROR, "general.safety_step_thresh must be strictly positive (zero-length steps would be accepted)")
